@@ -1,4 +1,5 @@
 import XtModel.Model.MsgpackSize
+import XtModel.Model.MsgpackCodec
 
 /-!
 Lemmas about the MessagePack size calculator model (`Model/MsgpackSize.lean`).
@@ -176,5 +177,604 @@ theorem safeAt (d : Nat) : SafeAt d := by
         | invalidMarker => simp
         | depthExceeded => simp
         | panic s => exact absurd hl (tryReadLength_not_panic _ _ _)
+
+
+/-! ## The decoder reads a prefix of its input and nothing beyond it -/
+
+/-- A parser that reads a prefix of its input and does not look beyond it. -/
+def Local {α : Type} (f : List Nat → Except DErr (α × List Nat)) : Prop :=
+  ∀ bs v rest, f bs = .ok (v, rest) →
+    ∃ used, bs = used ++ rest ∧ ∀ r', f (used ++ r') = .ok (v, r')
+
+theorem readN_ok {n : Nat} {bs x r : List Nat} (h : readN n bs = .ok (x, r)) :
+    bs = x ++ r ∧ x.length = n ∧ ∀ r', readN n (x ++ r') = .ok (x, r') := by
+  unfold readN at h
+  split at h
+  · rename_i hn
+    injection h with h; injection h with h1 h2; subst h1; subst h2
+    refine ⟨(List.take_append_drop n bs).symm, by rw [List.length_take]; omega, ?_⟩
+    intro r'
+    have hl : (List.take n bs).length = n := by rw [List.length_take]; omega
+    unfold readN
+    rw [if_pos (by rw [List.length_append]; omega)]
+    rw [List.take_left' hl, List.drop_left' hl]
+  · cases h
+
+theorem readN_local (n : Nat) : Local (readN n) := by
+  intro bs x r h
+  obtain ⟨h1, _, h3⟩ := readN_ok h
+  exact ⟨x, h1, h3⟩
+
+theorem header_local (m : Marker) : Local (header m) := by
+  intro t h r hh
+  unfold header at hh
+  split at hh
+  · cases hh
+  · rename_i h' hl
+    injection hh with hh; injection hh with h1 h2; subst h1; subst h2
+    refine ⟨[], rfl, ?_⟩
+    intro r'; unfold header; rw [hl]; rfl
+  · rename_i k kind hl
+    split at hh
+    · cases hh
+    · rename_i x r1 hr
+      injection hh with hh; injection hh with h1 h2; subst h1; subst h2
+      obtain ⟨e1, _, e3⟩ := readN_ok hr
+      refine ⟨x, e1, ?_⟩
+      intro r'; unfold header; rw [hl]; simp only [e3 r']
+  · rename_i w kind hl
+    split at hh
+    · cases hh
+    · rename_i x r1 hr
+      injection hh with hh; injection hh with h1 h2; subst h1; subst h2
+      obtain ⟨e1, _, e3⟩ := readN_ok hr
+      refine ⟨x, e1, ?_⟩
+      intro r'; unfold header; rw [hl]; simp only [e3 r']
+
+theorem seqWith_local {f : List Nat → Except DErr (MVal × List Nat)} (hf : Local f) :
+    ∀ n, Local (seqWith f n) := by
+  intro n
+  induction n with
+  | zero =>
+    intro bs vs r h
+    simp only [seqWith] at h
+    injection h with h; injection h with h1 h2; subst h1; subst h2
+    exact ⟨[], rfl, fun r' => by simp [seqWith]⟩
+  | succ n ih =>
+    intro bs vs r h
+    simp only [seqWith] at h
+    split at h
+    · cases h
+    · rename_i v r1 h1
+      split at h
+      · cases h
+      · rename_i vs' r2 h2
+        injection h with h; injection h with h3 h4; subst h3; subst h4
+        obtain ⟨u1, e1, g1⟩ := hf _ _ _ h1
+        obtain ⟨u2, e2, g2⟩ := ih _ _ _ h2
+        refine ⟨u1 ++ u2, by rw [e1, e2, List.append_assoc], ?_⟩
+        intro r'
+        simp only [seqWith, List.append_assoc, g1 (u2 ++ r'), g2 r']
+
+theorem pairsWith_local {f : List Nat → Except DErr (MVal × List Nat)} (hf : Local f) :
+    ∀ n, Local (pairsWith f n) := by
+  intro n
+  induction n with
+  | zero =>
+    intro bs vs r h
+    simp only [pairsWith] at h
+    injection h with h; injection h with h1 h2; subst h1; subst h2
+    exact ⟨[], rfl, fun r' => by simp [pairsWith]⟩
+  | succ n ih =>
+    intro bs vs r h
+    simp only [pairsWith] at h
+    split at h
+    · cases h
+    · rename_i k r1 h1
+      split at h
+      · cases h
+      · rename_i v r2 h2
+        split at h
+        · cases h
+        · rename_i kvs r3 h3
+          injection h with h; injection h with h4 h5; subst h4; subst h5
+          obtain ⟨u1, e1, g1⟩ := hf _ _ _ h1
+          obtain ⟨u2, e2, g2⟩ := hf _ _ _ h2
+          obtain ⟨u3, e3, g3⟩ := ih _ _ _ h3
+          refine ⟨u1 ++ (u2 ++ u3), by rw [e1, e2, e3]; simp, ?_⟩
+          intro r'
+          simp only [pairsWith, List.append_assoc, g1 (u2 ++ (u3 ++ r')), g2 (u3 ++ r'), g3 r']
+
+
+
+theorem decodeG_local_step (ext : Bool) (d : Nat)
+    (ih : ∀ d', d' < d → Local (decodeG ext d')) : Local (decodeG ext d) := by
+  intro bs v rest h
+  unfold decodeG at h
+  split at h
+  · cases h
+  · rename_i b t
+    split at h
+    · cases h
+    · -- scalar
+      rename_i v' r hh
+      injection h with h; injection h with h1 h2; subst h1; subst h2
+      obtain ⟨u, e, g⟩ := header_local _ _ _ _ hh
+      refine ⟨b :: u, by rw [e]; rfl, ?_⟩
+      intro r'
+      show decodeG ext d (b :: (u ++ r')) = _
+      unfold decodeG; simp only [g r']
+    · -- str
+      rename_i len r hh
+      obtain ⟨u, e, g⟩ := header_local _ _ _ _ hh
+      split at h
+      · cases h
+      · rename_i s r2 hr
+        injection h with h; injection h with h1 h2; subst h1; subst h2
+        obtain ⟨e1, _, g1⟩ := readN_ok hr
+        refine ⟨b :: (u ++ s), by rw [e, e1]; simp, ?_⟩
+        intro r'
+        show decodeG ext d (b :: ((u ++ s) ++ r')) = _
+        unfold decodeG; simp only [List.append_assoc, g (s ++ r'), g1 r']
+    · -- bin
+      rename_i len r hh
+      obtain ⟨u, e, g⟩ := header_local _ _ _ _ hh
+      split at h
+      · cases h
+      · rename_i s r2 hr
+        injection h with h; injection h with h1 h2; subst h1; subst h2
+        obtain ⟨e1, _, g1⟩ := readN_ok hr
+        refine ⟨b :: (u ++ s), by rw [e, e1]; simp, ?_⟩
+        intro r'
+        show decodeG ext d (b :: ((u ++ s) ++ r')) = _
+        unfold decodeG; simp only [List.append_assoc, g (s ++ r'), g1 r']
+    · -- ext
+      rename_i len r hh
+      obtain ⟨u, e, g⟩ := header_local _ _ _ _ hh
+      split at h
+      · cases h
+      · rename_i d'
+        split at h
+        · cases h
+        · rename_i hd
+          split at h
+          · rename_i hext
+            split at h
+            · cases h
+            · rename_i ty r1 hr1
+              split at h
+              · cases h
+              · rename_i s r2 hr2
+                injection h with h; injection h with h1 h2; subst h1; subst h2
+                obtain ⟨e1, _, g1⟩ := readN_ok hr1
+                obtain ⟨e2, _, g2⟩ := readN_ok hr2
+                refine ⟨b :: (u ++ (ty ++ s)), by rw [e, e1, e2]; simp, ?_⟩
+                intro r'
+                show decodeG ext (d' + 1) (b :: ((u ++ (ty ++ s)) ++ r')) = _
+                unfold decodeG
+                simp only [List.append_assoc, g (ty ++ (s ++ r')), g1 (s ++ r'), g2 r', hd, hext,
+                  ↓reduceIte]
+          · cases h
+    · -- arr
+      rename_i count r hh
+      obtain ⟨u, e, g⟩ := header_local _ _ _ _ hh
+      split at h
+      · cases h
+      · rename_i d'
+        split at h
+        · cases h
+        · rename_i hd
+          split at h
+          · cases h
+          · rename_i vs r2 hs
+            injection h with h; injection h with h1 h2; subst h1; subst h2
+            obtain ⟨u2, e2, g2⟩ := seqWith_local (ih d' (by omega)) count _ _ _ hs
+            refine ⟨b :: (u ++ u2), by rw [e, e2]; simp, ?_⟩
+            intro r'
+            show decodeG ext (d' + 1) (b :: ((u ++ u2) ++ r')) = _
+            unfold decodeG
+            simp only [List.append_assoc, g (u2 ++ r'), g2 r', hd, ↓reduceIte]
+    · -- map
+      rename_i count r hh
+      obtain ⟨u, e, g⟩ := header_local _ _ _ _ hh
+      split at h
+      · cases h
+      · rename_i d'
+        split at h
+        · cases h
+        · rename_i hd
+          split at h
+          · cases h
+          · rename_i vs r2 hs
+            injection h with h; injection h with h1 h2; subst h1; subst h2
+            obtain ⟨u2, e2, g2⟩ := pairsWith_local (ih d' (by omega)) count _ _ _ hs
+            refine ⟨b :: (u ++ u2), by rw [e, e2]; simp, ?_⟩
+            intro r'
+            show decodeG ext (d' + 1) (b :: ((u ++ u2) ++ r')) = _
+            unfold decodeG
+            simp only [List.append_assoc, g (u2 ++ r'), g2 r', hd, ↓reduceIte]
+
+theorem decodeG_local (ext : Bool) (d : Nat) : Local (decodeG ext d) := by
+  induction d using Nat.strongRecOn with
+  | _ d ih => exact decodeG_local_step ext d ih
+
+/-! ## The calculator's size is the decoder's extent -/
+
+/-- The calculator's arm for a marker, read off the decoder's layout table. -/
+def clsOf : Layout → Cls
+  | .reserved => .reserved
+  | .imm (.scalar _) => .fixed 1
+  | .imm (.str n) => .fixStr n
+  | .imm (.bin n) => .fixStr n
+  | .imm (.ext len) => .fixed (2 + len)
+  | .imm (.arr n) => .fixArray n
+  | .imm (.map n) => .fixMap n
+  | .data k _ => .fixed (1 + k)
+  | .len w .str => .lenPrefixed w (1 + w)
+  | .len w .bin => .lenPrefixed w (1 + w)
+  | .len w .ext => .lenPrefixed w (2 + w)
+  | .len w .arr => .array w
+  | .len w .map => .map w
+
+/-- The calculator and the decoder agree, marker by marker, on what follows
+each of the 37 markers. -/
+theorem classify_eq_clsOf (m : Marker) : classify m = clsOf (layout m) := by
+  cases m <;> rfl
+
+theorem Local.suffix {α : Type} {f : List Nat → Except DErr (α × List Nat)} (hf : Local f)
+    {bs : List Nat} {v : α} {rest : List Nat} (h : f bs = .ok (v, rest)) :
+    rest.length ≤ bs.length ∧ bs.drop (bs.length - rest.length) = rest := by
+  obtain ⟨u, e, _⟩ := hf _ _ _ h
+  subst e
+  refine ⟨by simp, ?_⟩
+  have : (u ++ rest).length - rest.length = u.length := by simp
+  rw [this, List.drop_left]
+
+theorem loop_extent {f : List Nat → Except DErr (MVal × List Nat)} (hf : Local f)
+    (L : Nat) (hL : L ≠ 0)
+    (hlt : ∀ bs v rest, f bs = .ok (v, rest) → rest.length < bs.length)
+    (hC : ∀ bs v rest, f bs = .ok (v, rest) →
+      nextValueSize bs (L - 1) = .ok (bs.length - rest.length)) :
+    ∀ n seq total vs rest, seqWith f n seq = .ok (vs, rest) →
+      totalSeqLoop seq n total L = .ok (total + (seq.length - rest.length)) := by
+  intro n
+  induction n with
+  | zero =>
+    intro seq total vs rest h
+    simp only [seqWith] at h
+    injection h with h; injection h with _ h2; subst h2
+    rw [totalSeqLoop.eq_def]; simp
+  | succ n ih =>
+    intro seq total vs rest h
+    simp only [seqWith] at h
+    split at h
+    · cases h
+    · rename_i v r1 h1
+      split at h
+      · cases h
+      · rename_i vs' r2 h2
+        injection h with h; injection h with _ h4; subst h4
+        have hlt1 := hlt _ _ _ h1
+        obtain ⟨_, hd1⟩ := hf.suffix h1
+        have hle2 := ((seqWith_local hf n).suffix h2).1
+        rw [totalSeqLoop.eq_def]
+        have hne : seq.isEmpty = false := by
+          cases seq with
+          | nil => simp at hlt1
+          | cons _ _ => rfl
+        simp only [hne, hL, hC _ _ _ h1, Nat.sub_le, hd1, ih _ _ _ _ h2]
+        simp
+        omega
+
+theorem seq_extent {f : List Nat → Except DErr (MVal × List Nat)} (hf : Local f)
+    (L : Nat) (hL : L ≠ 0)
+    (hlt : ∀ bs v rest, f bs = .ok (v, rest) → rest.length < bs.length)
+    (hC : ∀ bs v rest, f bs = .ok (v, rest) →
+      nextValueSize bs (L - 1) = .ok (bs.length - rest.length))
+    {n : Nat} {seq : List Nat} {vs : List MVal} {rest : List Nat}
+    (h : seqWith f n seq = .ok (vs, rest)) :
+    totalSeqSize seq n L = .ok (seq.length - rest.length) := by
+  rw [totalSeqSize.eq_def, loop_extent hf L hL hlt hC n seq 0 vs rest h]; simp
+
+theorem pairs_to_seq {f : List Nat → Except DErr (MVal × List Nat)} :
+    ∀ n seq kvs rest, pairsWith f n seq = .ok (kvs, rest) →
+      ∃ vs, seqWith f (n + n) seq = .ok (vs, rest) := by
+  intro n
+  induction n with
+  | zero =>
+    intro seq kvs rest h
+    simp only [pairsWith] at h
+    injection h with h; injection h with _ h2; subst h2
+    exact ⟨[], rfl⟩
+  | succ n ih =>
+    intro seq kvs rest h
+    simp only [pairsWith] at h
+    split at h
+    · cases h
+    · rename_i k r1 h1
+      split at h
+      · cases h
+      · rename_i v r2 h2
+        split at h
+        · cases h
+        · rename_i kvs' r3 h3
+          injection h with h; injection h with _ h5; subst h5
+          obtain ⟨vs, hvs⟩ := ih _ _ _ h3
+          have : n + 1 + (n + 1) = (n + n) + 1 + 1 := by omega
+          rw [this]
+          exact ⟨k :: v :: vs, by simp only [seqWith, h1, h2, hvs]⟩
+
+theorem seq_split {f : List Nat → Except DErr (MVal × List Nat)} :
+    ∀ a b seq vs rest, seqWith f (a + b) seq = .ok (vs, rest) →
+      ∃ vs1 mid vs2, seqWith f a seq = .ok (vs1, mid) ∧ seqWith f b mid = .ok (vs2, rest) := by
+  intro a
+  induction a with
+  | zero =>
+    intro b seq vs rest h
+    rw [Nat.zero_add] at h
+    exact ⟨[], seq, vs, rfl, h⟩
+  | succ a ih =>
+    intro b seq vs rest h
+    have : a + 1 + b = (a + b) + 1 := by omega
+    rw [this] at h
+    simp only [seqWith] at h
+    split at h
+    · cases h
+    · rename_i v r1 h1
+      split at h
+      · cases h
+      · rename_i vs' r2 h2
+        injection h with h; injection h with _ h4; subst h4
+        obtain ⟨vs1, mid, vs2, g1, g2⟩ := ih _ _ _ _ h2
+        exact ⟨v :: vs1, mid, vs2, by simp only [seqWith, h1, g1], g2⟩
+
+theorem map_extent {f : List Nat → Except DErr (MVal × List Nat)} (hf : Local f)
+    (L : Nat) (hL : L ≠ 0)
+    (hlt : ∀ bs v rest, f bs = .ok (v, rest) → rest.length < bs.length)
+    (hC : ∀ bs v rest, f bs = .ok (v, rest) →
+      nextValueSize bs (L - 1) = .ok (bs.length - rest.length))
+    {n : Nat} {seq : List Nat} {kvs : List (MVal × MVal)} {rest : List Nat}
+    (h : pairsWith f n seq = .ok (kvs, rest)) :
+    totalMapSize seq n L = .ok (seq.length - rest.length) := by
+  obtain ⟨vs, hvs⟩ := pairs_to_seq _ _ _ _ h
+  obtain ⟨vs1, mid, vs2, g1, g2⟩ := seq_split _ _ _ _ _ hvs
+  obtain ⟨hle1, hd1⟩ := (seqWith_local hf n).suffix g1
+  obtain ⟨hle2, _⟩ := (seqWith_local hf n).suffix g2
+  rw [totalMapSize.eq_def, seq_extent hf L hL hlt hC g1]
+  simp only [sliceFrom, Nat.sub_le, ↓reduceIte, hd1, seq_extent hf L hL hlt hC g2]
+  congr 1; omega
+
+
+
+theorem tryReadLength_cons {b : Nat} {t : List Nat} {w : Nat} {x r : List Nat}
+    (hr : readN w t = .ok (x, r)) : tryReadLength (b :: t) w = .ok (beNat x) := by
+  unfold readN at hr
+  split at hr
+  · rename_i hw
+    injection hr with hr; injection hr with h1 _; subst h1
+    unfold tryReadLength
+    have h1 : 1 + w ≤ (b :: t).length := by simp; omega
+    have h2 : (List.take w (List.drop 1 (b :: t))).length = w := by
+      simp [List.length_take]; omega
+    simp only [h1, h2, ↓reduceIte]
+    simp
+  · cases hr
+
+theorem readN_len {n : Nat} {bs x r : List Nat} (h : readN n bs = .ok (x, r)) :
+    n ≤ bs.length ∧ r = bs.drop n ∧ r.length = bs.length - n := by
+  unfold readN at h
+  split at h
+  · rename_i hn
+    injection h with h; injection h with _ h2; subst h2
+    exact ⟨hn, rfl, by simp⟩
+  · cases h
+
+def ExtentAt (ext : Bool) (d : Nat) : Prop :=
+  ∀ L, d ≤ L → 1 ≤ L → ∀ bs v rest, decodeG ext d bs = .ok (v, rest) →
+    nextValueSize bs L = .ok (bs.length - rest.length)
+
+theorem extent_step (ext : Bool) (d : Nat) (ih : ∀ d', d' < d → ExtentAt ext d') :
+    ExtentAt ext d := by
+  intro L hdL hL bs v rest h
+  have hL0 : L ≠ 0 := by omega
+  unfold decodeG at h
+  split at h
+  · cases h
+  · rename_i b t
+    rw [nextValueSize.eq_def]
+    simp only [hL0, ↓reduceIte, classify_eq_clsOf]
+    unfold header at h
+    cases hlay : layout (Marker.ofByte b) with
+    | reserved => simp only [hlay] at h; cases h
+    | imm hd =>
+      simp only [hlay] at h
+      cases hd with
+      | scalar v' =>
+        simp only at h
+        injection h with h; injection h with _ h2; subst h2
+        simp [clsOf]
+      | str n =>
+        simp only at h
+        split at h
+        · cases h
+        · rename_i s r' hr
+          injection h with h; injection h with _ h2; subst h2
+          obtain ⟨g1, _, g3⟩ := readN_len hr
+          simp only [clsOf, List.length_cons, g3]
+          rw [if_pos (by omega)]; congr 1; omega
+      | bin n =>
+        simp only at h
+        split at h
+        · cases h
+        · rename_i s r' hr
+          injection h with h; injection h with _ h2; subst h2
+          obtain ⟨g1, _, g3⟩ := readN_len hr
+          simp only [clsOf, List.length_cons, g3]
+          rw [if_pos (by omega)]; congr 1; omega
+      | ext n =>
+        simp only at h
+        split at h
+        · cases h
+        · rename_i d'
+          split at h
+          · cases h
+          · split at h
+            · split at h
+              · cases h
+              · rename_i ty r1 hr1
+                split at h
+                · cases h
+                · rename_i s r2 hr2
+                  injection h with h; injection h with _ h2; subst h2
+                  obtain ⟨g1, _, g3⟩ := readN_len hr1
+                  obtain ⟨g4, _, g6⟩ := readN_len hr2
+                  simp only [clsOf, List.length_cons, g6, g3]
+                  rw [if_pos (by omega)]; congr 1; omega
+            · cases h
+      | arr n =>
+        simp only at h
+        split at h
+        · cases h
+        · rename_i d'
+          split at h
+          · cases h
+          · rename_i hd'
+            split at h
+            · cases h
+            · rename_i vs r' hs
+              injection h with h; injection h with _ h2; subst h2
+              have hloc := decodeG_local ext d'
+              have hle := ((seqWith_local hloc n).suffix hs).1
+              have hC := ih d' (by omega) (L - 1) (by omega) (by omega)
+              have hx := seq_extent hloc L hL0 (decodeG_lt ext d') hC hs
+              simp only [clsOf, sliceFrom, List.length_cons, List.drop_succ_cons, List.drop_zero,
+                Nat.le_add_left, ↓reduceIte, hx]
+              rw [if_pos (by omega)]; congr 1; omega
+      | map n =>
+        simp only at h
+        split at h
+        · cases h
+        · rename_i d'
+          split at h
+          · cases h
+          · rename_i hd'
+            split at h
+            · cases h
+            · rename_i vs r' hs
+              injection h with h; injection h with _ h2; subst h2
+              have hloc := decodeG_local ext d'
+              have hle := ((pairsWith_local hloc n).suffix hs).1
+              have hC := ih d' (by omega) (L - 1) (by omega) (by omega)
+              have hx := map_extent hloc L hL0 (decodeG_lt ext d') hC hs
+              simp only [clsOf, sliceFrom, List.length_cons, List.drop_succ_cons, List.drop_zero,
+                Nat.le_add_left, ↓reduceIte, hx]
+              rw [if_pos (by omega)]; congr 1; omega
+    | data k kind =>
+      simp only [hlay] at h
+      cases hr : readN k t with
+      | error e => simp only [hr] at h; cases h
+      | ok p =>
+        obtain ⟨x, r⟩ := p
+        simp only [hr] at h
+        injection h with h; injection h with _ h2; subst h2
+        obtain ⟨g1, _, g3⟩ := readN_len hr
+        simp only [clsOf, List.length_cons, g3]
+        rw [if_pos (by omega)]; congr 1; omega
+    | len w kind =>
+      simp only [hlay] at h
+      cases hr : readN w t with
+      | error e => simp only [hr] at h; cases h
+      | ok p =>
+        obtain ⟨x, r⟩ := p
+        simp only [hr] at h
+        obtain ⟨g1, g2, g3⟩ := readN_len hr
+        have htr := tryReadLength_cons (b := b) hr
+        cases kind with
+        | str =>
+          simp only [mkHdr] at h
+          split at h
+          · cases h
+          · rename_i s r' hr'
+            injection h with h; injection h with _ h2; subst h2
+            obtain ⟨g4, _, g6⟩ := readN_len hr'
+            simp only [clsOf, htr, List.length_cons, g6, g3]
+            rw [if_pos (by omega)]; congr 1; omega
+        | bin =>
+          simp only [mkHdr] at h
+          split at h
+          · cases h
+          · rename_i s r' hr'
+            injection h with h; injection h with _ h2; subst h2
+            obtain ⟨g4, _, g6⟩ := readN_len hr'
+            simp only [clsOf, htr, List.length_cons, g6, g3]
+            rw [if_pos (by omega)]; congr 1; omega
+        | ext =>
+          simp only [mkHdr] at h
+          split at h
+          · cases h
+          · rename_i d'
+            split at h
+            · cases h
+            · split at h
+              · split at h
+                · cases h
+                · rename_i ty r1 hr1
+                  split at h
+                  · cases h
+                  · rename_i s r2 hr2
+                    injection h with h; injection h with _ h2; subst h2
+                    obtain ⟨g4, _, g6⟩ := readN_len hr1
+                    obtain ⟨g7, _, g9⟩ := readN_len hr2
+                    simp only [clsOf, htr, List.length_cons, g9, g6, g3]
+                    rw [if_pos (by omega)]; congr 1; omega
+              · cases h
+        | arr =>
+          simp only [mkHdr] at h
+          split at h
+          · cases h
+          · rename_i d'
+            split at h
+            · cases h
+            · rename_i hd'
+              split at h
+              · cases h
+              · rename_i vs r' hs
+                injection h with h; injection h with _ h2; subst h2
+                have hloc := decodeG_local ext d'
+                have hle := ((seqWith_local hloc _).suffix hs).1
+                have hC := ih d' (by omega) (L - 1) (by omega) (by omega)
+                have hx := seq_extent hloc L hL0 (decodeG_lt ext d') hC hs
+                have hdrop : List.drop (1 + w) (b :: t) = r := by
+                  rw [g2, Nat.add_comm]; rfl
+                have hsl : 1 + w ≤ (b :: t).length := by simp only [List.length_cons]; omega
+                simp only [clsOf, htr, sliceFrom, hsl, ↓reduceIte, hdrop, hx]
+                simp only [List.length_cons]
+                rw [if_pos (by omega)]; congr 1; omega
+        | map =>
+          simp only [mkHdr] at h
+          split at h
+          · cases h
+          · rename_i d'
+            split at h
+            · cases h
+            · rename_i hd'
+              split at h
+              · cases h
+              · rename_i vs r' hs
+                injection h with h; injection h with _ h2; subst h2
+                have hloc := decodeG_local ext d'
+                have hle := ((pairsWith_local hloc _).suffix hs).1
+                have hC := ih d' (by omega) (L - 1) (by omega) (by omega)
+                have hx := map_extent hloc L hL0 (decodeG_lt ext d') hC hs
+                have hdrop : List.drop (1 + w) (b :: t) = r := by
+                  rw [g2, Nat.add_comm]; rfl
+                have hsl : 1 + w ≤ (b :: t).length := by simp only [List.length_cons]; omega
+                simp only [clsOf, htr, sliceFrom, hsl, ↓reduceIte, hdrop, hx]
+                simp only [List.length_cons]
+                rw [if_pos (by omega)]; congr 1; omega
+
+theorem extentAt (ext : Bool) (d : Nat) : ExtentAt ext d := by
+  induction d using Nat.strongRecOn with
+  | _ d ih => exact extent_step ext d ih
 
 end Xt.Msgpack
